@@ -28,6 +28,7 @@ import (
 	"github.com/invopop/gobl/cal"
 	"github.com/invopop/gobl/cbc"
 	"github.com/invopop/gobl/l10n"
+	"github.com/invopop/gobl/num"
 	"github.com/invopop/gobl/tax"
 	"github.com/invopop/gobl/verifharness/internal/vh"
 	"pgregory.net/rapid"
@@ -816,6 +817,22 @@ func observeInvoice(rr rateRef, c Case) invObs {
 	}
 	if err := json.Unmarshal(data, &shown); err != nil {
 		return invObs{harness: "re-read: " + err.Error()}
+	}
+	// the calculated document owns its figures: writing over them (as decoding
+	// another document into the same value would) must not reach the tables -
+	// the cases that follow read their expectations from the published files
+	for _, l := range inv.Lines {
+		if l == nil {
+			continue
+		}
+		for _, cb := range l.Taxes {
+			if cb != nil && cb.Percent != nil {
+				*cb.Percent = num.MakePercentage(777, 3)
+			}
+			if cb != nil && cb.Surcharge != nil {
+				*cb.Surcharge = num.MakePercentage(77, 3)
+			}
+		}
 	}
 	if len(shown.Lines) < 1 || len(shown.Lines[len(shown.Lines)-1].Taxes) != 1 {
 		return invObs{harness: "calculated invoice lost its line or combo"}
